@@ -110,6 +110,10 @@ func (e *Engine) lookupLocal(fr *Frame, name string) (*Ptr, types.Type, bool) {
 		}
 		return -1
 	}
+	if k := strings.LastIndex(name, "__"); k > 0 && k+2 < len(name) && name[k+2] >= '1' && name[k+2] <= '9' {
+		// name__n: the n-th local of that name in source order (nested loops both have a hidden "rangeindex")
+		return e.lookupLocalNth(fr, name[:k], name[k+2:])
+	}
 	for _, b := range fr.fn.Blocks {
 		for _, in := range b.Instrs {
 			if al, ok := in.(*ssa.Alloc); ok && al.Comment == name {
@@ -1172,6 +1176,9 @@ func (e *Engine) evalCall(env *Env, n *ECall) (TV, error) {
 			return TV{}, fmt.Errorf("as(): not an interface value")
 		}
 		return TV{s.fromTerm(App("i-val", SInt, x), ty), ty}, nil
+	}
+	if tv, handled, err := e.bmainSpec(env, n.Fun, n.Args); handled {
+		return tv, err
 	}
 	// spec functions
 	if sf, ok := e.cs.Specs[n.Fun]; ok {
